@@ -507,21 +507,40 @@ example : staysOff exH encUtf8 (step exH encUtf8 (St.init exH) exToks[0]).1 [.te
 example : (steps exH encUtf8 (St.init exH) (exToks.take 3)).1.inv 1 = 2 := by decide
 
 
-/-! ## C07_output_eq_edit_spec — whole documents (stretch; statement + counterexamples)
+/-! ## C07_output_eq_edit_spec — whole documents
 
 `Spec.EditDoc.rewrite` is the documented edit of a whole token stream, over element extents. The
 dispatcher defers the end-region edits of an element to "the next end tag that pops it", which is
-the element's own end tag only if it has one. The full statement therefore needs the side condition
-`cleanRun` (no element carrying end-region edits ends without an end tag of its own); it is kept as
-a `Prop` (not proved in general — it is checked on every lane case: model = implementation,
-`Spec.EditDoc.rewrite` = the harness's reference editor, and `cleanRun → model = spec`), and the
-unconditional version is *refuted* on concrete witnesses, which are genuine defects of /repo. -/
+the element's own end tag only if it has one. The whole-document theorem therefore carries the side
+condition `cleanRun` (no element with *visible* end-region edits — appended / after content, removal
+or renaming of the end tag, an `on_end_tag` handler that makes a call — ends without an end tag of
+its own); the unconditional version is *refuted* on concrete witnesses, which are genuine defects of
+/repo. The lane checks on every case: model = implementation, `Spec.EditDoc.rewrite` = the harness's
+reference editor, and the `cleanRun` flag = the reference editor's own bookkeeping. -/
 
-/-- Full statement (not proved in general). -/
+/-- The whole-document statement. -/
 def C07_output_eq_edit_spec_statement : Prop :=
   ∀ (H : List Handler) (enc : Enc) (toks : List SrcToken),
     Spec.EditDoc.cleanRun H enc {} toks = true →
     (rewrite H enc toks).2 = Spec.EditDoc.rewrite H enc toks
+
+/-- **C07_output_eq_edit_spec** — for every set of handlers (any scripts, several handlers per token,
+nested matched elements, void / foreign self-closing elements, removed content with handlers inside,
+`on_end_tag`, streaming content, stray end tags, unclosed and implicitly closed elements …) and every
+clean token stream: the sink bytes of the dispatcher model are exactly the documented edit of the
+token stream, and on the way no `user_count` underflows, no end-tag locator is stale (`fault`) and
+`matched_elements_with_removed_content` does not underflow (`faultRemoved`).
+Proof: simulation `Lemmas.Refine.Sim` between dispatcher state and specification state (user counts =
+number of open matching elements; handler vector = the deferred handlers of the open elements,
+outermost first, none active; `removedCount` / `emission` = `RInv`), preserved by every token. -/
+theorem C07_output_eq_edit_spec (H : List Handler) (enc : Enc) (toks : List SrcToken)
+    (hn : Spec.EditDoc.cleanRun H enc {} toks = true) :
+    (rewrite H enc toks).2 = Spec.EditDoc.rewrite H enc toks
+      ∧ (rewrite H enc toks).1.fault = false ∧ (rewrite H enc toks).1.faultRemoved = false :=
+  LolHtml.Lemmas.Refine.rewrite_refines H enc toks hn
+
+theorem C07_output_eq_edit_spec_holds : C07_output_eq_edit_spec_statement :=
+  fun H enc toks hn => (C07_output_eq_edit_spec H enc toks hn).1
 
 /-- `<div><span>x</div>y` -/
 def cexToks : List SrcToken :=
@@ -609,27 +628,16 @@ theorem tidyRun_imp_cleanRun (H : List Handler) (enc : Enc) (toks : List SrcToke
         | some e => simp [hoe] at this
     | _ => rfl
 
-/-- **C07_output_eq_edit_spec_partial** — for every set of handlers (any scripts, several handlers per
-token, nested matched elements, void / foreign self-closing elements, removed content with handlers
-inside, `on_end_tag`, streaming content …) and every *tidy* token stream — the elements an end tag
-closes implicitly (unclosed elements above the one it names) were not touched by element handlers,
-and no element with end-region edits is left open at the end; stray end tags, unclosed untouched
-elements, text/comment handlers anywhere are all allowed — the sink bytes of the dispatcher model are
-exactly the documented edit of the token stream, and no `user_count` underflows / no end-tag locator
-is stale (`fault`) on the way.
-Missing for the full statement (`cleanRun`): implicit closes of elements an element handler ran on
-but whose end regions stayed (visibly) empty; there the model still runs those elements' invisible
-deferred handlers on the ancestor's end tag. -/
-theorem C07_output_eq_edit_spec_partial (H : List Handler) (enc : Enc) (toks : List SrcToken)
+/-- Corollary for *tidy* runs (implicitly closed elements untouched by element handlers). -/
+theorem C07_output_eq_edit_spec_tidy (H : List Handler) (enc : Enc) (toks : List SrcToken)
     (hn : Spec.EditDoc.tidyRun H enc {} toks = true) :
-    (rewrite H enc toks).2 = Spec.EditDoc.rewrite H enc toks
-      ∧ (rewrite H enc toks).1.fault = false ∧ (rewrite H enc toks).1.faultRemoved = false :=
-  LolHtml.Lemmas.Refine.rewrite_refines H enc toks hn
+    (rewrite H enc toks).2 = Spec.EditDoc.rewrite H enc toks :=
+  (C07_output_eq_edit_spec H enc toks (tidyRun_imp_cleanRun H enc toks {} hn)).1
 
 /-- Non-vacuity: `<div><span>x<p>y</span></zz>` — a closed `span` with edits in all regions, inside an
-unclosed `div`; an untouched unclosed `p` closed implicitly by `</span>`; a stray end tag; a text
-handler on `*` (runs inside `p` too). `span { before a; prepend p; append q; after z; set_tag_name b }`,
-`* text { before "!" }`. -/
+unclosed `div`; an unclosed `p` on which an element handler *did* run (`set_attribute`, `prepend`,
+`set_inner_content`: no visible end-region edit) closed implicitly by `</span>`; a stray end tag; a
+text handler on `*`. The run is clean but not tidy. -/
 example :
     let toks : List SrcToken :=
       [.startTag [100, 105, 118] [] false .html [60, 100, 105, 118, 62],
@@ -641,10 +649,14 @@ example :
        .endTag [122, 122] [60, 47, 122, 122, 62]]
     let H := spanHandler [.before (.buffer [97] .html), .prepend (.buffer [112] .html),
         .append (.buffer [113] .html), .after (.buffer [122] .html), .setTagName [98]]
-      ++ [{ sel := some .any, script := .text fun _ => [.mut (.before (.buffer [33] .html))] }]
-    Spec.EditDoc.tidyRun H encUtf8 {} toks = true
+      ++ [{ sel := some .any, script := .text fun _ => [.mut (.before (.buffer [33] .html))] },
+          { sel := some (.type [112]), script := .element fun _ =>
+              [.setAttribute [105, 100] [49], .append (.buffer [] .html), .setInnerContent (.buffer [73] .html)] }]
+    Spec.EditDoc.cleanRun H encUtf8 {} toks = true
+      ∧ Spec.EditDoc.tidyRun H encUtf8 {} toks = false
       ∧ (rewrite H encUtf8 toks).2
-          = [60, 100, 105, 118, 62, 97, 60, 98, 62, 112, 33, 120, 33, 60, 112, 62, 33, 121, 33, 113,
+          = [60, 100, 105, 118, 62, 97, 60, 98, 62, 112, 33, 120, 33,
+             60, 112, 32, 105, 100, 61, 34, 49, 34, 62, 73, 113,
              60, 47, 98, 62, 122, 60, 47, 122, 122, 62] := by decide
 
 end LolHtml.Thm.C07
